@@ -24,14 +24,21 @@ func VerifC18Domain() {
 	if !hostEnabled {
 		host = ""
 	}
-	dl := 1 + zzverif.Choice("domLabels", 4)
-	var ds []string
-	for i := 0; i < dl; i++ {
-		ds = append(ds, zzverif.StringOf("d", w, alpha))
+	// one or two custom domains, each 1..4 labels
+	nd := 1 + zzverif.Choice("domains", 2)
+	var domains []string
+	var dls []int
+	for j := 0; j < nd; j++ {
+		dl := 1 + zzverif.Choice("domLabels", 4)
+		var ds []string
+		for i := 0; i < dl; i++ {
+			ds = append(ds, zzverif.StringOf("d", w, alpha))
+		}
+		domains = append(domains, strings.Join(ds, "."))
+		dls = append(dls, dl)
 	}
-	domain := strings.Join(ds, ".")
 	sub := zzverif.StringUpTo("sub", 2, "a.*")
-	c := &v1.DomainConfig{CustomDomains: []string{domain}, SubDomain: sub}
+	c := &v1.DomainConfig{CustomDomains: domains, SubDomain: sub}
 	s := &v1.ServerConfig{SubDomainHost: host}
 
 	err := validateDomainConfigForServer(c, s)
@@ -39,10 +46,12 @@ func VerifC18Domain() {
 	if err == nil {
 		zzverif.Reach("C18.domain.accepted")
 		if hostEnabled {
-			belongs := strings.HasSuffix(strings.ToLower(domain), "."+strings.ToLower(host))
-			zzverif.Assert(!belongs, "C18.domain.custom-domain-outside-subdomain-host-any-case")
-			if dl > hl {
-				zzverif.Reach("C18.domain.longer-accepted")
+			for j, domain := range domains {
+				belongs := strings.HasSuffix(strings.ToLower(domain), "."+strings.ToLower(host))
+				zzverif.Assert(!belongs, "C18.domain.custom-domain-outside-subdomain-host-any-case")
+				if dls[j] > hl {
+					zzverif.Reach("C18.domain.longer-accepted")
+				}
 			}
 		}
 		if sub != "" {
